@@ -24,6 +24,11 @@ inductive TryFromDecimalError
   | notAnIntValue | valueOutOfRange
 deriving Repr, DecidableEq
 
+/-- the error of a failed `Result` carried over to another `Ok` type (the `?` operator; only used on a value known to be `Err`) -/
+def errOf {ε α β} [Inhabited ε] : Except ε α → Except ε β
+  | .error e => .error e
+  | .ok _ => .error default
+
 /-- truncation to an unsigned type of the given width (`as uN`, `wrapping_*`, bits shifted out by `<<`) -/
 def wrapU (bits : Nat) (x : Nat) : Nat := x % 2 ^ bits
 
